@@ -911,6 +911,8 @@ class Inliner:
             if inf is None:
                 continue
             name = inf.node.name
+            if name in getattr(self, "keep", ()):
+                continue  # imported by another module
             still_used = False
             for x in ast.walk(self.tree):
                 if x is inf.node:
@@ -935,13 +937,14 @@ class Inliner:
                         body.append(ast.Pass())
 
 
-def inline_unknown_helpers(tree: ast.Module, modname: str, baseline_all) -> Tuple[List[str], Dict[str, str]]:
+def inline_unknown_helpers(tree: ast.Module, modname: str, baseline_all, keep=()) -> Tuple[List[str], Dict[str, str]]:
     if not baseline_all:
         return [], {}
     base = baseline_all.get(modname)
     if base is None:
         return [], {}  # a new module: nothing is anchored in it
     inl = Inliner(tree, modname, base)
+    inl.keep = set(keep)
     return inl.run(), inl.renamed
 
 
